@@ -40,7 +40,7 @@ struct Inner {
     switches: u64,
     trace: Fnv,
     sig: Fnv,
-    site_counts: [u64; 8],
+    site_counts: [u64; 24],
     stop: bool,
     deadlock: bool,
     max_live: usize,
@@ -58,7 +58,7 @@ pub struct SchedStats {
     pub choices: Vec<u8>,
     pub trace: u64,
     pub sig: u64,
-    pub site_counts: [u64; 8],
+    pub site_counts: [u64; 24],
     pub deadlock: bool,
     pub max_live: usize,
     pub tasks_total: usize,
@@ -96,7 +96,7 @@ impl Sched {
                 switches: 0,
                 trace: Fnv::default(),
                 sig: Fnv::default(),
-                site_counts: [0; 8],
+                site_counts: [0; 24],
                 stop: false,
                 deadlock: false,
                 max_live: n_top,
@@ -206,7 +206,7 @@ impl Sched {
     pub fn yield_point(&self, id: usize, site: u32) {
         let mut g = self.inner.lock().unwrap();
         g.yields += 1;
-        g.site_counts[(site as usize).min(7)] += 1;
+        g.site_counts[(site as usize).min(23)] += 1;
         g.trace.u64(0x1000_0000_0000_0000 | ((id as u64) << 8) | site as u64);
         if g.deadlock {
             return;
